@@ -104,12 +104,63 @@ func randShape(r interface{ IntN(int) int }, seed uint64) Shape {
 	return sh
 }
 
+// numberAcross gives the snapshots of sh explicit Raft positions such that the
+// identifiers of the set a reap consolidates (newest full + its incrementals)
+// change their number of decimal digits inside that set: either the index
+// steps over a power of ten (…8, 9, 10, 11…) or the term does (9 -> 10,
+// 99 -> 100). Snapshot directory names are <term>-<index>-<msec> without
+// padding, so for these stores lexical name order != chronological order.
+func numberAcross(sh Shape, r interface{ IntN(int) int }, term bool) Shape {
+	n := sh.NSnaps()
+	k := n - 1 - len(sh.Groups[len(sh.Groups)-1].Incs) // position of the newest full
+	pow := uint64(10)
+	for i := r.IntN(3); i > 0; i-- {
+		pow *= 10
+	}
+	sh.Numbering = make([]IndexTerm, n)
+	if !term {
+		full := pow - 1 - uint64(r.IntN(2)) // pow-1 or pow-2; at least two incrementals follow
+		t := 1 + uint64(r.IntN(5))
+		for i := range sh.Numbering {
+			sh.Numbering[i] = IndexTerm{Index: full - uint64(k) + uint64(i), Term: t}
+		}
+		return sh
+	}
+	if pow > 100 {
+		pow = 100
+	}
+	idx := 10 + uint64(r.IntN(1000))
+	// The term steps over pow at the 2nd incremental, or (when the full carries
+	// WALs of its own, which are consolidated too) at the 1st or 2nd: in both
+	// cases WAL files of the old and of the new term are in the reaped set.
+	rise := k + 2
+	if sh.Groups[len(sh.Groups)-1].FullWALs > 0 {
+		rise = k + 1 + r.IntN(2)
+	}
+	for i := range sh.Numbering {
+		idx += 1 + uint64(r.IntN(40))
+		t := pow - 1
+		if i >= rise {
+			t = pow
+		}
+		sh.Numbering[i] = IndexTerm{Index: idx, Term: t}
+	}
+	return sh
+}
+
 func shapes(c *vf.Ctx) []Shape {
 	r := c.Rand(1)
 	seed := func() uint64 { return r.Uint64() >> 1 }
+	r2 := c.Rand(2) // separate stream: the shapes drawn from r stay what they were
+	seed2 := func() uint64 { return r2.Uint64() >> 1 }
 	var out []Shape
 	rounds := c.N(1, 3)
 	for i := 0; i < rounds; i++ {
+		// identifiers that change their digit count inside the reaped set:
+		// index over a power of ten (lone full + incrementals) ...
+		out = append(out, numberAcross(Shape{Seed: seed2(), Groups: []Group{{FullWALs: r2.IntN(2), Incs: []int{1 + r2.IntN(2), 1 + r2.IntN(2), 1}}}}, r2, false))
+		// ... and term 9 -> 10 / 99 -> 100 (older full + newest full + incrementals)
+		out = append(out, numberAcross(Shape{Seed: seed2(), Groups: []Group{{}, {FullWALs: r2.IntN(2), Incs: []int{1 + r2.IntN(2), 1 + r2.IntN(2)}}}}, r2, true))
 		// only older snapshots to drop: plan = remove_all ops
 		older := []Group{{}}
 		if r.IntN(2) == 0 {
@@ -123,7 +174,7 @@ func shapes(c *vf.Ctx) []Shape {
 		// everything at once
 		out = append(out, Shape{Seed: seed(), Groups: []Group{{Incs: []int{1}}, {FullWALs: 1 + r.IntN(2), Incs: []int{1 + r.IntN(3), 1 + r.IntN(3), 1}}}})
 	}
-	total := c.N(6, 20)
+	total := c.N(8, 26)
 	for len(out) < total {
 		out = append(out, randShape(r, seed()))
 	}
@@ -477,7 +528,7 @@ func (d *driver) explore(sr *shapeRun, W, cdir, state string, hits int, path []i
 }
 
 func run(c *vf.Ctx) {
-	c.Rule("case = (store shape, hook hit n of Store.Reap() at which the process exits[, hook hit m of the recovering snapshot.NewStore at which it exits again]). Shapes are built through the real snapshot API from a live WAL-mode database (full snapshots streamed by NewSnapshotStreamer, optionally carrying 1-2 own WALs; incrementals of 1-3 compacted WALs moved in via staging dir + NewSnapshotPathStreamer): 0-2 older groups, newest full, 0-4 incrementals. Every hook hit of the recorded reap is a first-level case; thorough crashes the recovery run at every one of its hits too, quick at one seeded hit. Non-trivial = the child really exited (code 197) at the chosen hit of a reap that had a non-empty plan; distinct by (shape, n, m)")
+	c.Rule("case = (store shape, hook hit n of Store.Reap() at which the process exits[, hook hit m of the recovering snapshot.NewStore at which it exits again]). Shapes are built through the real snapshot API from a live WAL-mode database (full snapshots streamed by NewSnapshotStreamer, optionally carrying 1-2 own WALs; incrementals of 1-3 compacted WALs moved in via staging dir + NewSnapshotPathStreamer): 0-2 older groups, newest full, 0-4 incrementals. Raft (index, term) of the snapshots are drawn from the seed (index from 10..1010 rising by 1..40), and per round two shapes are numbered explicitly so that the identifiers of the reaped set change their digit count inside the set (index stepping by one over 10/100/1000, term stepping 9->10 or 99->100: directory-name order != creation order). Every hook hit of the recorded reap is a first-level case; thorough crashes the recovery run at every one of its hits too, quick at one seeded hit. Non-trivial = the child really exited (code 197) at the chosen hit of a reap that had a non-empty plan; distinct by (shape, n, m)")
 	c.Assume("process-crash model: the process stops at a hook point, all writes issued before it are kept (no torn or lost writes, no power loss)")
 	c.Assume("crash points are the vhook points in snapshot/store.go, snapshot/plan/plan.go and snapshot/plan/executor.go (before/after every plan op, after each WAL rename and each CheckpointRemove, around plan write/removal); code between two hooks is treated as atomic")
 	c.Assume("sqlref logical dump (schema + typed rows + user_version/application_id) decides 'same database content'")
